@@ -1,6 +1,6 @@
 (* C08 — property theorems (statements only; proofs live in Proofs*.v).  See notes/C08.md for the status of each. *)
 From Coq Require Import List ZArith QArith Qabs Bool.
-Require Import QV.C08.Model QV.C08.Spec QV.C08.Wf QV.C08.Proofs QV.C08.ProofsVec QV.C08.ProofsRev QV.C08.ProofsConst QV.C08.ProofsTotal QV.C08.ProofsProper QV.C08.ProofsCtor QV.C08.Hist QV.C08.ProofsHist QV.C08.ProofsTrafo QV.C08.ProofsConstT QV.C08.ProofsTotalT QV.C08.ProofsTable QV.C08.ProofsPar QV.C08.ProofsOp QV.C08.ProofsFlat QV.C08.ProofsDen QV.C08.ProofsSimple QV.C08.ProofsHistT QV.C08.Lin QV.C08.ProofsLin QV.C08.ProofsLinDen QV.C08.ProofsDedup QV.C08.ProofsLinHist QV.C08.ProofsR2.
+Require Import QV.C08.Model QV.C08.Spec QV.C08.Wf QV.C08.Proofs QV.C08.ProofsVec QV.C08.ProofsRev QV.C08.ProofsConst QV.C08.ProofsTotal QV.C08.ProofsProper QV.C08.ProofsCtor QV.C08.Hist QV.C08.ProofsHist QV.C08.ProofsTrafo QV.C08.ProofsConstT QV.C08.ProofsTotalT QV.C08.ProofsTable QV.C08.ProofsPar QV.C08.ProofsOp QV.C08.ProofsFlat QV.C08.ProofsDen QV.C08.ProofsSimple QV.C08.ProofsHistT QV.C08.Lin QV.C08.ProofsLin QV.C08.ProofsLinDen QV.C08.ProofsDedup QV.C08.ProofsLinHist QV.C08.ProofsR2 QV.C08.ProofsMirror.
 Import ListNotations.
 Open Scope Q_scope.
 
@@ -369,3 +369,21 @@ Theorem C08_constructors_refuted : exists r w wp c t,
   sample w c t = Some 1 /\ sample wp c t = None.
 Proof. exact constructors_refuted_ex. Qed.
 Print Assumptions C08_constructors_refuted.
+
+(* ---- reversal ANYWHERE (around sequences, repetitions, nested, doubled; no transformations): the code's answer is the
+   denotation of DESIGN 4.4 (reversal pushed to the leaves, pieces in reversed order, first-match junctions) at every
+   time the executable guard [bad] does not exclude: under an ODD number of reversals a time exactly on a boundary of a
+   sequence / repetition (internal junction, or its end = t 0 of the reversed waveform) is excluded - exactly the class of
+   C08_reversed_junction_refuted / C08_total_reversed_refuted (known finding C08-reversed-composite-junction); under an
+   even number nothing is excluded.  Generalises C08_sample_is_denotation (there [bad] is constantly false). ---- *)
+Theorem C08_denotation_any_reversal : forall w, okb w = true -> no_trans w = true -> forall c t,
+  inb c (channels w) = true -> 0 <= t -> t < duration w -> bad false w c t = false ->
+  oQeq (den w c t) (sample w c t).
+Proof. exact den_is_sample_guarded. Qed.
+Print Assumptions C08_denotation_any_reversal.
+(* the mirror law against the denotation, away from internal junctions *)
+Theorem C08_mirror_law : forall w, okb w = true -> no_trans w = true -> forall c t,
+  inb c (channels w) = true -> 0 <= t -> t < duration w -> bad false (WRev w) c t = false ->
+  oQeq (den (WRev w) c t) (sample w c (duration w - t)).
+Proof. exact mirror_law_den. Qed.
+Print Assumptions C08_mirror_law.
